@@ -2,3 +2,5 @@ import AdeptModel.GradAlloc
 import AdeptModel.Tape
 import AdeptModel.StackProto
 import AdeptModel.RecBuf
+import AdeptModel.RecBufSites
+import AdeptModel.Storage
